@@ -96,6 +96,35 @@ impl Cell {
         Cell::Pair(Box::new(car), Box::new(cdr))
     }
 
+    /// Weight
+    ///
+    /// The memory a set of data holds, in units of one cell: the cells they are made
+    /// of, and the text of the strings and symbols and the digits of the bignums among
+    /// them.
+    pub fn weight<'a>(cells: impl IntoIterator<Item = &'a Cell>) -> usize {
+        let mut pending: Vec<&Cell> = cells.into_iter().collect();
+        let mut weight = 0_usize;
+        while let Some(cell) = pending.pop() {
+            weight = weight.saturating_add(1);
+            match cell {
+                Cell::Pair(car, cdr) => {
+                    pending.push(car);
+                    pending.push(cdr);
+                }
+                Cell::Vector(vector) => pending.extend(vector.iter()),
+                Cell::String(text) | Cell::Symbol(text) => {
+                    weight = weight.saturating_add(text.len() / std::mem::size_of::<Cell>());
+                }
+                Cell::Number(Number::BigInt(num)) => {
+                    let bytes = usize::try_from(num.bits() / 8).unwrap_or(usize::MAX);
+                    weight = weight.saturating_add(bytes / std::mem::size_of::<Cell>());
+                }
+                _ => {}
+            }
+        }
+        weight
+    }
+
     pub fn iter(&self) -> IntoIter {
         IntoIter { next: self }
     }
